@@ -453,6 +453,11 @@ func runCell(p *pki, o *origin, cl cell, timeout time.Duration) (res cellResult)
 				viol("unoffered-h3", "HTTP/3 used although the server has no QUIC listener")
 			}
 		}
+		if force == "" && o.spec.HTTPS && !o.spec.H3 && !o.spec.AltSvc && rec.Outcome == "EDial" {
+			// nothing forced, no QUIC listener, none advertised: the request belongs on TCP; a timeout can only be the
+			// leftover of an earlier (forced) HTTP/3 dial
+			viol("unforced-timeout-without-quic", "nothing is forced and the origin neither has nor advertises HTTP/3, yet the request failed with a dial timeout: "+rec.Detail)
+		}
 		if ok && !o.spec.HTTPS {
 			if rec.Outcome == "V3" || (rec.Outcome == "V2" && !w.h2c) {
 				viol("plain-http-used-"+used, "plain HTTP request served over HTTP/"+used+" without h2c being enabled")
